@@ -484,6 +484,28 @@ def run_grown_and_auto(case, ctx):
                         ctx.violation(f'{tname}.sort_index|auto-index|key-function|order', **info, got=got, expected=order)
                 except Exception as e:
                     ctx.violation(f'{tname}.sort_index|auto-index|key-function|raises|{type(e).__name__}', **info, error=repr(e))
+    # (c) rows labelled by a hierarchical index, sorted by a column: the (label, row) associations in key order
+    from mc.props.c02 import tree_ordered
+    ih_labels = [('a', 1), ('a', 2), ('b', 1), ('b', 2)][:n]
+    for vec in itertools.product((1, 2, 0), repeat=n):
+        fh = sf.Frame.from_items((('k', arr(vec, 'int64')), ('v', arr(['t%d' % i for i in range(n)], '<U2'))), index=sf.IndexHierarchy.from_labels(ih_labels), name='fn')
+        for asc in (True, False):
+            order = ref_order([(v,) for v in vec], asc)
+            exp = [ih_labels[i] for i in order]
+            ctx.transition()
+            ctx.state(('hier-sort', vec, asc))
+            info = dict(keys=vec, ascending=asc, index=ih_labels)
+            try:
+                r = fh.sort_values('k', ascending=asc)
+            except Exception as e:
+                if tree_ordered(exp):
+                    ctx.violation(f'frame.sort_values|hier-index|raises|{type(e).__name__}', **info, error=repr(e))
+                else:
+                    ctx.violation(f'frame.sort_values|hier-index|refused-when-the-sorted-row-order-is-not-tree-shaped|{type(e).__name__}', **info, expected=exp)
+                continue
+            got = [tuple(t) for t in r.index]
+            if got != exp or r['v'].values.tolist() != ['t%d' % i for i in order]:
+                ctx.violation('frame.sort_values|hier-index|order', **info, got=got, expected=exp)
     ctx.outcome('grown_and_auto')
     ctx.sample({'family': 'grown_and_auto', 'n': n}, limit=1)
 
